@@ -215,6 +215,14 @@ PROPS["C18"] = {
     "assumptions": [],
 }
 
+PROPS["C12"] = {
+    "level": "proof",
+    "ground": [("ground.effects", "check_c12")],
+    "bounded": [("ground.listing", "check")],
+    "technique": "frame condition (no write to sys.stdout) checked statically per reachable function; bounded listing-vs-instruction-stream comparison on the corpus as stand-in for the formatters",
+    "assumptions": [],
+}
+
 # ---------------------------------------------------------------------------------------------
 # level texts / notes (MANIFEST)
 _T = {
@@ -250,6 +258,8 @@ _T = {
          "KeyboardInterrupt/SystemExit not modelled; load_module's size check and open() are assumed to see the same file (no race); RecursionError raised inside the readers is converted to ImportError like any other exception (counts as failing cleanly); static frame analysis recognises primitives by spelling; the unmarshaller's termination on hostile input is bounded evidence only."),
  "C18": ("History independence is decided as a frame condition: for each of the 235 functions reachable from the public operations (load_module, disassemble_file, get_opcode / get_opcode_module, make_std_api, marsh dump(s)/load(s), load_code, Bytecode, the label and line-start finders) one obligation shows that its body writes no module-level or class-level container, no mutable default argument (also not by letting it escape into an attribute), keeps no memo (@lru_cache) and patches no table except by save/restore in a finally block; remap_opcodes is the documented exception. Writes through aliases (a module's table stored in an instance attribute and mutated there) are outside the static check and are covered by the bounded history replay: a 97-operation catalogue, each operation alone in a fresh interpreter vs inside random sequences, with digests of every process-wide container before and after each operation.",
          "call graph over-approximated by name (see frames.ASSUMPTIONS); import-time table construction (init_opdata, fields2copy) is not reachable from the public operations and is not checked; aliasing: bounded evidence only."),
+ "C12": ("Only the 'clean' clause is decided deductively: a frame obligation for each of the 228 functions reachable from disassemble_file / pydisasm's main shows that its body has no print() without file=, no print(file=sys.stdout) and no sys.stdout.write (the listing goes to the stream it was given). Totality over the six formats and faithfulness of the classic/bytes listings to the instruction stream (each non-CACHE instruction once, in order, offset, name, operand, '>>' iff jump target, line number iff it starts a line) are checked on the corpus (2 files per version directory quick, all 260+ thorough): bounded.",
+         "the per-instruction formatter (string formatting) and the listing loop are outside pyvc's modelled subset (opaque text): bounded evidence only; the instruction stream itself is the subject of C02-C05/C20; two recorded known findings (1.5-2.0 lnotab lines, xasm on PyPy 3.2)."),
  "C14": ("The integer paths of xdis.marsh are proved for every int of any size: w_long/w_short/w_long64 append exactly the little-endian words that read back (two's complement) to the value; dump_int picks 'i'/'I' by range; dump_long writes 'l', the signed digit count and the 15-bit digits of |x| (loop invariants over a positional-notation spec with an induction lemma: the digits sum back to |x|, top digit non-zero, all digits < 2**15); the fast reader's _r_short/_r_long/_r_long64 are proved to decode the same words. Text, float, complex and container writers/readers are compared with the marshal of hosts 3.8-3.13 by a bounded differential in both directions.",
          "the byte sink is a ghost sequence of everything written through self._write; chr()/str concatenation modelled for code points < 256; load_long's accumulation (x | d << 15 i with symbolic shift) and all non-integer paths are bounded only; bytes-assembly in dumps() is bounded only."),
  "C13": ("write_bytecode_file is proved, for the magic of every final CPython release 1.3-3.13 and all timestamps/source sizes, to write exactly the header that the C06-verified reader decodes back to the same (magic, flags 0, timestamp, size), followed by the marshaller's bytes and nothing else, to the path given, and to close the file; out-of-range header words raise. _Marshaller.dump_code3 is proved to emit the fields of a 3.0-3.10 code object in the order and width of the layout the reader t_code is verified against (C01), and to refuse 3.11+ objects; w_long/w_short/dump_long as in C14. Whether the rewritten file is the same program is judged by the target interpreters (2.7, 3.6-3.13) and by xdis re-reading it, on 13 programs per version: bounded.",
